@@ -156,6 +156,17 @@ func GenIPRestrictedX509Cert(userName string, userPub interface{},
 	return x509.CreateCertificate(rand.Reader, &template, caCert, userPub, caPriv)
 }
 
+// IsIPRestrictedX509Cert returns true if the cert contains an IP restriction
+// extension (whether or not the contents of the extension are valid).
+func IsIPRestrictedX509Cert(userCert *x509.Certificate) bool {
+	for _, certExtension := range userCert.Extensions {
+		if certExtension.Id.Equal(oidIPAddressDelegation) {
+			return true
+		}
+	}
+	return false
+}
+
 // VerifyIPRestrictedX509CertIP takes a x509 cert and verifies that it is valid given
 // an incoming remote address. If the cert does not contain an IP restriction extension
 // the verification is considered failed.
